@@ -211,6 +211,9 @@ class Server(object):
                 sock, _addr = self.lsock.accept()
             except OSError:
                 return
+            if self.stopping:
+                sock.close()
+                return
             with self.lock:
                 io = ConnIO(sock, len(self.connections), self)
                 self.connections.append(io)
@@ -253,10 +256,18 @@ class Server(object):
 
     def stop(self):
         self.stopping = True
+        # closing a listening socket does not wake a thread blocked in
+        # accept(); shutdown() does (the accept loop must really end, or it
+        # would go on accepting on whatever socket re-uses the descriptor)
+        try:
+            self.lsock.shutdown(socket.SHUT_RDWR)
+        except OSError:
+            pass
         try:
             self.lsock.close()
         except OSError:
             pass
+        self.acceptor.join(2.0)
         for io in list(self.connections):
             io.close()
 
